@@ -18,6 +18,7 @@ from .dataflow import Def, DefUse
 from .program import AnalysisError, FuncInfo, ClassInfo, dotted, src, walk_local
 
 BOT = frozenset()
+_NONE = frozenset({"NONE"})
 
 
 def flat(v) -> frozenset:
@@ -36,9 +37,10 @@ def join(a, b):
         return a
     if isinstance(a, tuple) and isinstance(b, tuple) and len(a) == len(b):
         return tuple(join(x, y) for x, y in zip(a, b))
-    if isinstance(a, tuple) and not b:
+    # None has no components: `x = None` ... `x = (a, b)` keeps the structure of the tuple
+    if isinstance(a, tuple) and (not b or b == _NONE):
         return a
-    if isinstance(b, tuple) and not a:
+    if isinstance(b, tuple) and (not a or a == _NONE):
         return b
     return flat(a) | flat(b)
 
@@ -124,9 +126,13 @@ class Analysis:
             self._du[fi.qualname] = d
         return d
 
+    _redirect = None
+
     def _upd(self, table, key, v):
         if v is None:
             return
+        if self._redirect is not None:
+            table = self._redirect.get(id(table), table)
         old = table.get(key)
         new = join(old, v) if old is not None else v
         if new != old:
@@ -149,6 +155,29 @@ class Analysis:
             self._changed = False
             self._memo.clear()
             self.rounds = r + 1
+            self._round(S)
+            if not self._changed:
+                break
+        # narrowing: a transient flat value of an early round (a field read before its writer was evaluated) destroys
+        # tuple structure for good, because the join only grows.  Re-evaluating every equation once more from the
+        # post-fixed point X gives F(X), which still contains the least fixed point (F is monotone) and may be
+        # smaller / better structured.  A few descending rounds, each starting from the previous result.
+        for _k in range(3):
+            old = (self.param, self.field, self.ret)
+            new = ({}, {}, {})
+            self._memo.clear()
+            self._redirect = {id(old[0]): new[0], id(old[1]): new[1], id(old[2]): new[2]}
+            try:
+                self._round(S)
+            finally:
+                self._redirect = None
+            if new[0] == old[0] and new[1] == old[1] and new[2] == old[2]:
+                break
+            self.param, self.field, self.ret = new
+        self._memo.clear()
+
+    def _round(self, S):
+        if True:
             for fi in self.funcs:
                 cfg = self.ctx.cfgs.get(fi)
                 for (n, c, targets, ext) in S.calls_of(fi):
@@ -171,9 +200,6 @@ class Analysis:
                                 self._upd(self.ret, fi.qualname, self.ev(fi, n, x.value))
                             if isinstance(x, ast.YieldFrom):
                                 self._upd(self.ret, fi.qualname, self.dom.iter_elem(self, fi, n, x.value, self.ev(fi, n, x.value)))
-            if not self._changed:
-                break
-        self._memo.clear()
 
     @staticmethod
     def bind_args(c: ast.Call, t: FuncInfo):
@@ -307,6 +333,10 @@ class Analysis:
             key = self.P.try_fold(fi.module, e.slice) if not isinstance(e.slice, ast.Slice) else None
             if isinstance(v, tuple) and isinstance(key, int) and -len(v) <= key < len(v):
                 return v[key]
+            if not isinstance(e.slice, ast.Slice) and not isinstance(key, int):
+                cv = self._mapping_values(fi, n, e.value, depth + 1)
+                if cv is not None:
+                    return cv
             d = dotted(e.value)
             if d is not None:
                 s = dom.source(self, fi, d + "[%r]" % (key,))
@@ -492,6 +522,68 @@ class Analysis:
                 out = join(out if out is not None else BOT, extra)
             return out if out is not None else BOT
 
+    def _mapping_values(self, fi: FuncInfo, n: Node, recv: ast.AST, depth: int):
+        """Join of the values stored by ``m[k] = v`` into the mapping *recv* denotes, when *recv* is a local name, an
+        attribute ``self.F`` or a local alias of one, and such stores exist; None otherwise (not a modelled mapping)."""
+        if depth > 20:
+            return None
+        field = None
+        local = None
+        d = dotted(recv)
+        if isinstance(recv, ast.Name):
+            local = recv.id
+            defs = self.du(fi).reaching(n, recv.id)
+            srcs = {dotted(x.value) for x in defs if x.kind == "assign" and x.value is not None}
+            if defs and len(srcs) == 1 and all(x.kind == "assign" for x in defs):
+                d0 = next(iter(srcs))
+                if d0 and d0.startswith("self.") and d0.count(".") == 1:
+                    field = d0.split(".")[1]
+        elif d and d.startswith("self.") and d.count(".") == 1:
+            field = d.split(".")[1]
+        else:
+            return None
+        key = ("mapvals", fi.qualname, local, field)
+        if key in self._stack:
+            return BOT
+        self._stack.add(key)
+        try:
+            out = None
+            funcs = [fi]
+            if field is not None and fi.cls is not None:
+                related = list(fi.cls.mro) + fi.cls.all_subclasses()
+                funcs = [m for c_ in related for m in c_.methods.values()]
+                if fi not in funcs:
+                    funcs.append(fi)
+            for g in funcs:
+                try:
+                    cfg = self.ctx.cfgs.get(g)
+                except AnalysisError:
+                    continue
+                gdu = None
+                for m in cfg.stmt_nodes():
+                    a = m.ast
+                    if not (m.kind == "stmt" and isinstance(a, ast.Assign)):
+                        continue
+                    for t in a.targets:
+                        if not isinstance(t, ast.Subscript):
+                            continue
+                        bd = dotted(t.value)
+                        hit = False
+                        if field is not None and bd == "self." + field:
+                            hit = True
+                        elif isinstance(t.value, ast.Name):
+                            if g is fi and local is not None and t.value.id == local:
+                                hit = True
+                            elif field is not None:
+                                gdu = gdu or self.du(g)
+                                ds = gdu.reaching(m, t.value.id)
+                                hit = bool(ds) and all(x.kind == "assign" and x.value is not None and dotted(x.value) == "self." + field for x in ds)
+                        if hit:
+                            out = join(out, self.ev(g, m, a.value, depth + 1))
+            return out
+        finally:
+            self._stack.discard(key)
+
     def _container_adds(self, fi: FuncInfo, name: str, depth: int):
         out = None
         cfg = self.ctx.cfgs.get(fi)
@@ -657,6 +749,13 @@ class Analysis:
                 real = obj.qualname
             elif kind == "class":
                 real = obj.qualname
+        if isinstance(c.func, ast.Attribute) and c.func.attr in ("get", "pop", "setdefault") and c.args:
+            # mapping populated by `m[k] = v` in this class: what is read out is one of the stored values
+            cv = self._mapping_values(fi, n, c.func.value, depth + 1)
+            if cv is not None:
+                for extra in args[1:]:
+                    cv = join(cv, extra)
+                return cv
         m = dom.call(self, fi, n, c, real, args, recv)
         if m is not None:
             return m
